@@ -10,7 +10,7 @@
 From Coq Require Import List Arith Lia.
 From PM Require Import Model.Data Model.Mark Model.Tree Spec.Tokens
   Proofs.ReplaceValid Proofs.SliceSides Proofs.TokenBasics Proofs.PathTokens Proofs.ReplaceTokens Proofs.SliceShape
-  Proofs.SliceTokens Proofs.SliceCut Proofs.TokenInj Proofs.ReplaceCanon Proofs.DocEquality.
+  Proofs.SliceTokens Proofs.SliceCut Proofs.TokenInj Proofs.ReplaceCanon Proofs.DocEquality Proofs.ReplaceSafe.
 Import ListNotations.
 
 Theorem C02_replace_is_token_splice : forall s doc from to sl d',
@@ -86,6 +86,15 @@ Theorem C02_reinsert_cut_slice_gives_equal_document : forall s from to doc sl d'
   node_eqb d' doc = true.
 Proof. exact reinsert_cut_slice_eq. Qed.
 Print Assumptions C02_reinsert_cut_slice_gives_equal_document.
+
+(* "A replace that would not produce a well-formed, schema-valid tree raises the replace error instead of returning
+   anything": for every element document, positions and slice, Node.replace either returns (a valid document, by
+   C02_replace_returns_valid / C01) or raises ReplaceError - or ValueError for a position outside the document or a
+   cut through a surrogate pair; it takes no other exit (no IndexError / AttributeError / assertion). *)
+Theorem C02_replace_error_class : forall s doc from to sl e,
+  is_elem doc -> node_replace s doc from to sl = Err e -> e = ErrReplace \/ e = ErrValue.
+Proof. intros s doc from to sl e He H. exact (node_replace_NI s doc from to sl He e H). Qed.
+Print Assumptions C02_replace_error_class.
 
 (* the hypotheses are met by ordinary documents: the example document of Properties/C01.v *)
 From PM Require Properties.C01.
